@@ -91,7 +91,13 @@ func (r *bucketRegistry) unregisterBucket(bucket *Bucket) {
 		delete(r.bucketCount, name)
 		// if an in memory bucket, don't close the sqlite db since it will vanish
 		if !bucket.inMemory {
+			// Shut the store down under the bucket mutex, so that a feed being registered concurrently is
+			// either closed here or refused; stop expiration first, because stop() waits for a running
+			// expiration, which needs the bucket mutex to finish.
+			bucket.expManager.stop()
+			bucket.mutex.Lock()
 			bucket._closeSqliteDB()
+			bucket.mutex.Unlock()
 			delete(r.buckets, name)
 		}
 		return
